@@ -124,7 +124,8 @@ CHECKS = {
              "core users, sources embedded in the hir_ty / codegen tests), their token- and "
              "byte-level mutants, token soups, random Unicode, depth-200 nesting, a 64 KiB input, "
              "and the witnesses of every recorded finding and repaired defect (tools/c06_inputs).",
-        note="quick: 2 232 inputs; thorough: 34 000. A time-out is re-run alone with four times "
+        note="quick: 2 838 inputs; thorough: 41 000 (corpus, token / byte mutants of the corpus and of "
+             "generated programs, token soups, Unicode, nesting, witnesses, snippet geometry). A time-out is re-run alone with four times "
              "the limit before it counts. 22 known findings (panic sites of the front end / type "
              "checker on malformed input, three back-end failures on accepted programs), each "
              "identified by event + innermost function of the code under test + normalised "
@@ -147,7 +148,8 @@ CHECKS = {
              "accepted only as a behaviour of the machine that ends in a terminal state "
              "satisfying the gate. Records in which the compiler reached a verdict are judged "
              "here (crashes before a verdict are C06's).",
-        note="quick: 1 003 corpus programs + 1 200 single-token mutants + the regression inputs "
+        note="quick: 1 003 corpus programs + 1 200 single-token mutants + 240 generated programs "
+             "with one breaking change (mutability / type / scope / arity / token) + the regression inputs "
              "in tools/c06_inputs; thorough: 30 000 mutants. The spec is a small stage machine; "
              "the exploration is generator-driven (said in DESIGN.md section 7). Known findings "
              "F07a-c. Trusted: TLC, the harness' staging of crates/capy's main.rs through the "
@@ -193,7 +195,9 @@ CHECKS = {
              "and, when accepted, is compiled and run; TLC validates every observation "
              "(TraceLiterals.tla). Unannotated literals are observed as `any` with their run-time "
              "size and signedness, so their value is judged without fixing their type.",
-        note="6 732 cases quick, strings up to 3 components thorough. Unannotated literals may be "
+        note="11 628 cases quick (typed sites: annotated mutable / immutable local, annotated global, "
+             "function result, struct member, array element, assignment, arithmetic, argument), "
+             "strings up to 3 components thorough. Unannotated literals may be "
              "rejected (the property only demands their value if accepted). Float literals whose "
              "decimal value is not a dyadic rational (0.1) are not constrained by the spec. "
              "Trusted: TLC, the renderer in tools/props/c09.py, meta_type_to_u32's size/sign bits "
@@ -228,15 +232,18 @@ CHECKS = {
              "type, none twice, all named or a default) and the dispatch rule (the arm naming the "
              "current variant runs with the argument bound to its payload, else the default arm "
              "with the whole value) over sum type shapes (enums of 1..MaxEnum variants with void / "
-             "i32 / u8 / struct payloads, automatic and custom discriminants incl. 0, 200, 255; "
-             "?i32; ?^i32; str!i32; each also behind a distinct) x every arm list up to MaxArms "
-             "over own variants and a foreign one x default x spelling (shorthand, fully "
-             "qualified, mixed). TLC checks that exactly one arm is responsible for every variant "
+             "i32 / u8 / struct / ^i32 payloads, automatic and custom discriminants incl. 0, 200, "
+             "255, counted up to 255 and past it (invalid declaration); ?i32; ?^i32; str!i32; "
+             "str!^i32; each also behind a distinct and as the payload of a variant-typed "
+             "scrutinee (not a sum type)) x every arm list up to MaxArms over own variants and a "
+             "foreign one (for optionals: a type that is nil underneath) x default x spelling "
+             "(shorthand, fully qualified, mixed) x form (statement; value whose first arm leaves "
+             "the function). TLC checks that exactly one arm is responsible for every variant "
              "of an accepted switch and emits verdict + dispatch table. Every switch is one "
              "function given to the real front end (verdict); accepted ones are executed on every "
              "run-time variant and the arm letter + payload bytes (default: which variant "
              "#is_variant reports for the bound value) compared.",
-        note="quick: MaxEnum 3, MaxArms 4 (27 288 switches, 1 074 accepted and run on all their "
+        note="quick: MaxEnum 3, MaxArms 4 (52 112 switches, 1 781 accepted and run on all their "
              "variants); thorough: MaxEnum 4, MaxArms 5. Default arm always last and single. "
              "Trusted: TLC, the renderer in tools/props/c11.py, gcc as linker.",
         technique="TLA+ static + dispatch rules (TLC enumeration) + spec-to-implementation replay",
@@ -414,7 +421,9 @@ CHECKS = {
              "printing values; every fourth with one type error) are arranged 9 ways - 5 orders "
              "in one file, two / three files, everything but main in a library, with imports and "
              "import cycles - compiled, linked, run, and the history validated by TLC.",
-        note="quick: 32 programs x 9 arrangements, thorough: 400 x 9. The scheduler itself is "
+        note="quick: 32 programs x 9 arrangements, thorough: 400 x 9; one feature per program "
+             "(recursive function in a comptime array length, comptime global over mutual recursion, "
+             "array length through a constant of another file, dependent comptime parameters). The scheduler itself is "
              "C26's. Trusted: TLC, the arrangement renderer in tools/props/c20.py, gcc as linker.",
         technique="TLA+ history machine + trace validation of recorded arrangements",
         ref="DESIGN.md section 4 C20"),
@@ -430,7 +439,8 @@ CHECKS = {
              "process (process-global tables LAYOUTS / FINAL_TYS / type names) and, for programs "
              "of several files, with the other files registered in reverse and in forward order "
              "before the import work-list finds them; TLC validates the history.",
-        note="quick: 28 inputs (valid, several-file and token-mutated invalid programs), 126 "
+        note="quick: 36 inputs (valid, several-file, generated, comptime data with padding, and "
+             "token-mutated invalid programs), 174 "
              "compilations; thorough: 320 inputs. Diagnostics of the re-ordered variants are "
              "compared as multisets plus, when equal, in order. The TLA+ content is one history "
              "variable (said in DESIGN.md). Trusted: TLC, sha256 of the object bytes, the "
